@@ -20,6 +20,8 @@
 * `payload_guards` - what the real decoder does with the four failing inputs of
                      `json.loads(message.decode())` (invalid UTF-8, invalid JSON, nesting beyond the
                      recursion limit, an integer literal over the digit limit);
+* `detect_table`   - the class the real `detect_protocol` chose on 73 probe messages (every
+                     combination of the members it looks at, and batches mixing the classes);
 * `allow_batches`  - whether each class decodes an array / emits a batch;
 * the error-code constants (public class attributes) and AST fingerprints (drift => deeper run).
 
@@ -430,6 +432,49 @@ def allow_batches(mod):
     return out
 
 
+# ------------------------------------------------------------------ auto-detection
+def detect_probes():
+    out = []
+    for j in (ABSENT, '2.0', '1.0', 2.0, '2', None):
+        for has_r in (False, True):
+            for has_e in (False, True):
+                for has_m in (False, True):
+                    p = {}
+                    if has_m:
+                        p['method'] = 'm'
+                    if j is not ABSENT:
+                        p['jsonrpc'] = j
+                    if has_r:
+                        p['result'] = None if has_e else 1
+                    if has_e:
+                        p['error'] = None
+                    p['id'] = 1
+                    out.append(p)
+    v2 = {'jsonrpc': '2.0', 'method': 'm', 'id': 1}
+    v1 = {'result': 1, 'error': None, 'id': 1}
+    v1b = {'jsonrpc': '1.0', 'method': 'm', 'params': [], 'id': 1}
+    lo = {'method': 'm', 'id': 1}
+    out += [5, 'x', None, True, 1.5, [], [v2], [v1], [v1b], [lo], [v2, v2], [v2, v1], [v1, v2], [v1, lo],
+            [lo, v1], [lo, v2], [v2, lo], [lo, lo], [5], [v1, 5], [5, v2], [lo, 5, v1], [[]], [v1, v1b],
+            [lo, lo, v2, v1]]
+    return out
+
+
+def detect_table(mod):
+    rows = []
+    auto = getattr(mod, 'JSONRPCAutoDetect', None)
+    names = {v: k for k, v in classes(mod).items() if v is not None and k != 'auto'}
+    for p in detect_probes():
+        try:
+            got = names.get(auto.detect_protocol(wire(p)), 'other')
+        except BaseException as e:      # noqa
+            if isinstance(e, (KeyboardInterrupt, SystemExit)):
+                raise
+            got = 'raises'
+        rows.append({'payload': p, 'out': got})
+    return rows
+
+
 def extract(repo):
     mod = common.fresh_import(repo, 'aiorpcx.jsonrpc')
     J = getattr(mod, 'JSONRPC', None)
@@ -447,6 +492,7 @@ def extract(repo):
         'payload_guards': payload_guards(mod, codes),
         'decode_table': decode_table(mod, codes),
         'encode_table': encode_table(mod),
+        'detect_table': detect_table(mod),
         'fingerprints': common.fingerprints(repo, MODELLED),
     }
 
@@ -588,6 +634,14 @@ def render(f):
     rows = f['encode_table']
     for k, r in enumerate(rows):
         lines.append('  ' + lean_enc_row(r) + (',' if k + 1 < len(rows) else ''))
+    lines.append(']')
+    lines.append('/-- what the real `detect_protocol` chose on the probe messages (`none`: it raised or chose '
+                 'something else) -/')
+    lines.append('def detectTable : List (J × Option Proto) := [')
+    drows = f['detect_table']
+    for k, r in enumerate(drows):
+        out = f'(some .{r["out"]})' if r['out'] in ('v1', 'v2', 'loose') else 'none'
+        lines.append(f'  ({lean_J(r["payload"])}, {out})' + (',' if k + 1 < len(drows) else ''))
     lines.append(']')
     lines.append('end Aiorpcx.Facts.C04')
     return '\n'.join(lines) + '\n'
